@@ -54,7 +54,7 @@ def part_b():
                 print('  PATH', p.status, p.value, (p.detail or '')[-300:])
                 bad += 1
             nv = sum(args) if fname == 'ops' else 2 * args[0]
-            for vals in itertools.product([ord(c) for c in 'ab \n{'], repeat=nv):
+            for vals in itertools.product([ord(c) for c in 'ab \n\r'], repeat=nv):
                 a = dict(enumerate(vals))
                 hits = [p for p in oks if all(cond.evaluate(c, a) for c in p.pc)]
                 total += 1
